@@ -29,6 +29,14 @@ fn version_ws(v: usize, n_mods: usize, n_calls: usize, edge: bool) -> Workspace 
             t.push_str(&format!("  lib.target_v{v}(a)\n"));
         }
         t.push_str(&format!("  C{v}(f{v}: {v}).f{v}\n  k{v}\n}}\n"));
+        // diagnostics that differ from version to version (a stale answer is visible) and are many
+        // (building the answer takes a while after the last database access)
+        // (thousands in the large-module shape: there a reader can be between its last database
+        // access and handing in the answer for a millisecond or more)
+        let strays = if n_calls >= 1000 { 1200 + 9 * v } else { 30 + 5 * v + i % 3 };
+        for _ in 0..strays {
+            t.push_str(")\n");
+        }
         ws.files.push(WsFile { path: format!("/ws/app/src/u{}.gleam", i), pkg: 0, text: t, module: Some(format!("u{}", i)) });
     }
     let toml = ws.files.len();
@@ -130,9 +138,18 @@ fn reader(an: Analysis, version: usize, plan: Vec<(u32, u32, Q)>, start: usize, 
     ReaderLog { version, results }
 }
 
-fn change_to(ws: &Workspace) -> Change {
+/// `twice`: some files are listed twice, an intermediate content first and the final one after it
+/// (what the document store hands over when a document was edited twice before the change is taken).
+fn change_to(ws: &Workspace, twice: bool) -> Change {
     let mut change = Change::default();
     for (i, f) in ws.files.iter().enumerate() {
+        if twice && i % 3 == 0 {
+            let mut h = f.text.len() / 2;
+            while !f.text.is_char_boundary(h) {
+                h -= 1;
+            }
+            change.change_file(FileId(i as u32), Arc::from(format!("// intermediate state\npub fn half_typed( {{\n{}", &f.text[..h]).as_str()));
+        }
         change.change_file(FileId(i as u32), Arc::from(f.text.as_str()));
     }
     change
@@ -145,6 +162,14 @@ pub fn run_schedule(ctx: &mut Ctx, bytes: &[u8], precomputed: &BTreeMap<(usize, 
     let shape = *c.pick(&[(12usize, 20usize), (30, 40), (50, 60), (12, 20), (30, 40), (50, 60), (12, 20), (2, 1500)]);
     let n_steps = 2 + c.below(5);
     let mut v = 0usize;
+    let mut touched = false;
+    // in half of the large-module schedules the readers ask for nothing but diagnostics (thousands
+    // per file): an answer handed in late - computed for the old text, stored after the writer
+    // cleared what was stored for it - shows up as the next version's answer
+    let diag_only = shape.1 >= 1000 && crate::engine::choices::hash_str(&hex(bytes)) % 2 == 0;
+    if diag_only {
+        ctx.class("readers asking for diagnostics only (large modules)");
+    }
     let mut edge = c.chance(128);
     let mut host = AnalysisHost::new();
     let (ws0, _, _) = precomputed.get(&(v * 2 + edge as usize, shape.0, shape.1)).expect("precomputed");
@@ -188,7 +213,7 @@ pub fn run_schedule(ctx: &mut Ctx, bytes: &[u8], precomputed: &BTreeMap<(usize, 
         let n_readers = 1 + c.below(4);
         for r in 0..n_readers {
             let an = host.snapshot();
-            let plan = plan.clone();
+            let plan: Vec<(u32, u32, Q)> = if diag_only { plan.iter().filter(|p| matches!(p.2, Q::Diagnostics)).cloned().collect() } else { plan.clone() };
             let start = c.below(plan.len());
             let stop2 = stop.clone();
             let ye = c.below(4);
@@ -207,7 +232,20 @@ pub fn run_schedule(ctx: &mut Ctx, bytes: &[u8], precomputed: &BTreeMap<(usize, 
         if step + 1 < n_steps {
             crate::engine::watchdog::set_current(&case.to_string());
             let t0 = Instant::now();
-            if c.chance(70) || v >= 5 {
+            let hstep = crate::engine::choices::mix64(crate::engine::choices::hash_str(&hex(bytes)) ^ (step as u64 * 31 + 7));
+            if hstep % 4 == 0 {
+                // a change that touches only the dependency's module (blank lines and a comment): it
+                // cancels the readers like any other change, but every answer of the current version
+                // stays what it was - whatever a cancelled query left behind for the files that did
+                // NOT change is still there for the next reader
+                touched = !touched;
+                let (cur, _, _) = precomputed.get(&(v * 2 + edge as usize, shape.0, shape.1)).unwrap();
+                let hi = cur.files.iter().position(|f| f.path.ends_with("/helper.gleam")).unwrap();
+                let mut change = Change::default();
+                change.change_file(FileId(hi as u32), Arc::from(format!("{}{}", cur.files[hi].text, if touched { "\n\n// touched\n" } else { "" }).as_str()));
+                host.apply_change(change);
+                ctx.class("change of the dependency module only (answers unchanged)");
+            } else if c.chance(70) || v >= 5 {
                 // a change of the package graph only (dependency edge toggled)
                 edge = !edge;
                 let (next, _, _) = precomputed.get(&(v * 2 + edge as usize, shape.0, shape.1)).unwrap();
@@ -218,7 +256,11 @@ pub fn run_schedule(ctx: &mut Ctx, bytes: &[u8], precomputed: &BTreeMap<(usize, 
             } else {
                 v += 1;
                 let (next, _, _) = precomputed.get(&(v * 2 + edge as usize, shape.0, shape.1)).unwrap();
-                host.apply_change(change_to(next));
+                let twice = crate::engine::choices::mix64(crate::engine::choices::hash_str(&hex(bytes)) ^ step as u64) % 3 == 0;
+                if twice {
+                    ctx.class("change listing files twice (intermediate content first)");
+                }
+                host.apply_change(change_to(next, twice));
             }
             apply_ms.push(t0.elapsed().as_millis() as u64);
             crate::engine::watchdog::idle();
